@@ -317,6 +317,9 @@ func (in *Interp) readPath(st *State, p string, t types.Type) Val {
 			if zero {
 				return IntV{Const(0)}
 			}
+			if bits, uns := intBits(t); uns && bits <= 32 {
+				return IntV{setAtomMax(ValOf(p), int64(1)<<uint(bits)-1)}
+			}
 			return IntV{ValOf(p)}
 		case u.Info()&types.IsBoolean != 0:
 			if zero {
@@ -787,7 +790,7 @@ func (in *Interp) eval(st *State, e ast.Expr) Val {
 			idx := in.evalInt(st, x.Index)
 			in.site(st, b, "index", b.Off.Add(idx), Const(1), x)
 			if st.bufs[b.ID] != nil && st.bufs[b.ID].Origin == "param" {
-				return IntV{FromAtom(&Atom{Kind: "val", Path: "P[" + b.Off.Add(idx).String() + "]"})}
+				return IntV{setAtomMax(FromAtom(&Atom{Kind: "val", Path: "P[" + b.Off.Add(idx).String() + "]"}), 255)}
 			}
 			return IntV{Opq(in.render(st, e))}
 		case SliceV:
@@ -935,8 +938,27 @@ func (in *Interp) binary(st *State, x *ast.BinaryExpr) Val {
 			r = a.Scale(1 << uint(b.C))
 		}
 	case token.AND:
-		// x & (2^k-1) bounded mask: keep opaque but remember the bound
+		// x & m is bounded by both operands
 		r = Opq("(" + a.String() + ")&(" + b.String() + ")")
+		bound := int64(-1)
+		for _, o := range []*Term{a, b} {
+			if u, ok := o.UpperBound(); ok && o.NonNeg() && (bound < 0 || u < bound) {
+				bound = u
+			}
+		}
+		if bound >= 0 {
+			setAtomMax(r, bound)
+		}
+	case token.SHR:
+		r = Opq("(" + a.String() + ")>>(" + b.String() + ")")
+		if u, ok := a.UpperBound(); ok && a.NonNeg() && b.IsConst() && b.C >= 0 && b.C < 62 {
+			setAtomMax(r, u>>uint(b.C))
+		}
+	case token.REM:
+		r = Opq("(" + a.String() + ")%(" + b.String() + ")")
+		if b.IsConst() && b.C > 0 && a.NonNeg() {
+			setAtomMax(r, b.C-1)
+		}
 	}
 	if r == nil {
 		r = Opq("(" + a.String() + ")" + x.Op.String() + "(" + b.String() + ")")
@@ -946,6 +968,10 @@ func (in *Interp) binary(st *State, x *ast.BinaryExpr) Val {
 		if !in.fitsUnsigned(r, bits) {
 			if bits <= 8 {
 				return IntV{Wrap(fmt.Sprintf("uint%d", bits), r)}
+			}
+			if ub, ok := in.upperBound(r); ok && bits == 16 && ub > 65535 && x.Op != token.SUB {
+				// the operands' declared ranges (wire fields) admit a result above 65535
+				return IntV{Wrap("uint16", r)}
 			}
 			// uint16 size arithmetic is the norm here; the 16-bit wrap of a total
 			// above 65535 is outside the size rules (DESIGN §5). Record it only.
@@ -972,7 +998,10 @@ func (in *Interp) upperBound(t *Term) (int64, bool) {
 	if t.IsConst() {
 		return t.C, true
 	}
-	return 0, false
+	if !t.NonNeg() {
+		return 0, false
+	}
+	return t.UpperBound()
 }
 
 func (in *Interp) sliceExpr(st *State, x *ast.SliceExpr) Val {
